@@ -219,15 +219,26 @@ func putContractBind(native *native.NativeService, redeemChainID, contractChainI
 }
 
 func putBindSignInfo(native *native.NativeService, message []byte, multiSignInfo *BindSignInfo) error {
-	key := utils.ConcatKey(utils.SideChainManagerContractAddress, []byte(BIND_SIGN_INFO), message)
+	return putSignInfo(native, BIND_SIGN_INFO, message, multiSignInfo)
+}
+
+func getBindSignInfo(native *native.NativeService, message []byte) (*BindSignInfo, error) {
+	return getSignInfo(native, BIND_SIGN_INFO, message)
+}
+
+// putSignInfo / getSignInfo store the signatures collected so far for one pending multi-sign
+// operation. Every operation must use its own prefix so that messages of different operations
+// can never address the same record.
+func putSignInfo(native *native.NativeService, prefix string, message []byte, multiSignInfo *BindSignInfo) error {
+	key := utils.ConcatKey(utils.SideChainManagerContractAddress, []byte(prefix), message)
 	sink := common.NewZeroCopySink(nil)
 	multiSignInfo.Serialization(sink)
 	native.GetCacheDB().Put(key, cstates.GenRawStorageItem(sink.Bytes()))
 	return nil
 }
 
-func getBindSignInfo(native *native.NativeService, message []byte) (*BindSignInfo, error) {
-	key := utils.ConcatKey(utils.SideChainManagerContractAddress, []byte(BIND_SIGN_INFO), message)
+func getSignInfo(native *native.NativeService, prefix string, message []byte) (*BindSignInfo, error) {
+	key := utils.ConcatKey(utils.SideChainManagerContractAddress, []byte(prefix), message)
 	bindSignInfoStore, err := native.GetCacheDB().Get(key)
 	if err != nil {
 		return nil, fmt.Errorf("getBtcMultiSignInfo, get multiSignInfoStore error: %v", err)
